@@ -154,11 +154,20 @@ class Run:
         self.loop = env.loop
         RPCSession = env.session.RPCSession
         cfg = wl['cfg']
-        Cli = type('Cli', (RPCSession,), dict(sent_request_timeout=cfg['timeout'],
-                                               target_response_time=cfg['trt'],
-                                               recalibrate_count=cfg['recal'],
+        # the three settings can be given the ways a user can give them: as attributes of a
+        # subclass, or on the instance after the transport's session factory has constructed it
+        # (the subclass then carries decoy values); `changes` re-assign sent_request_timeout on
+        # the instance while the session is in use
+        how = wl.get('configure', 'subclass')
+        given = dict(sent_request_timeout=cfg['timeout'], target_response_time=cfg['trt'],
+                     recalibrate_count=cfg['recal'])
+        decoy = dict(sent_request_timeout=977.0, target_response_time=97.0, recalibrate_count=977)
+        Cli = type('Cli', (RPCSession,), dict(given if how == 'subclass' else decoy,
                                                max_send_delay=cfg.get('send_delay', 20.0)))
         self.proto, self.tr, self.s = env.make_session(Cli, 'client')
+        if how != 'subclass':
+            for k, v in given.items():
+                setattr(self.s, k, v)
         self.tr.on_write = self.on_write
         self.tr.on_lost = self.on_lost
         self.tr.on_resume_reading = self.flush
@@ -169,6 +178,7 @@ class Run:
         self.written = {}        # caller -> write time
         self.reply_at = {}       # caller -> (time a proper answer is delivered, kind)
         self.lost_at = None
+        self.finished = False
         self.cancelled_by_harness = set()
         self.TaskTimeout = env.curio.TaskTimeout
         self.RPCError = env.jsonrpc.RPCError
@@ -285,7 +295,7 @@ class Run:
 
     def on_lost(self):
         # the transport is closing (peer dropped it, or the session aborted a stuck write)
-        if self.lost_at is None:
+        if self.lost_at is None and not self.finished:
             self.lost_at = self.loop.time()
             self.note('L', None)
 
@@ -304,16 +314,35 @@ class Run:
             # the socket send buffer is full between t1 and t2
             self.loop.call_later(t1, self.proto.pause_writing)
             self.loop.call_later(t2, self.proto.resume_writing)
+        for tc, value in wl.get('changes', []):
+            self.loop.call_later(tc, setattr, self.s, 'sent_request_timeout', value)
         n = len(wl['callers'])
         horizon = max([c['start'] for c in wl['callers']] + [0]) + \
-            (n + 3) * (wl['cfg']['timeout'] + wl['cfg'].get('send_delay', 20.0) + 1) + 10
+            (n + 3) * (max_timeout(wl) + wl['cfg'].get('send_delay', 20.0) + 1) + 10
         self.env.advance(horizon)
         self.pending = [cid for cid, t in self.tasks.items() if not t.done()]
+        self.finished = True        # tearing the loop down is not a connection loss of the workload
         self.env.close_loop()
 
 
 def count_of(c):
     return 1 if c['kind'] == 'single' else len(c['items'])
+
+
+def max_timeout(wl):
+    return max([wl['cfg']['timeout']] + [v for _t, v in wl.get('changes', [])])
+
+
+def timeout_in_force(wl, t):
+    """sent_request_timeout at virtual time t -> (value, ambiguous): ambiguous when it is re-assigned
+    at that very instant"""
+    value, amb = wl['cfg']['timeout'], False
+    for tc, v in sorted(wl.get('changes', [])):
+        if abs(tc - t) < 1e-9:
+            amb = True
+        if tc <= t:
+            value = v
+    return value, amb
 
 
 def judge(run):
@@ -393,7 +422,9 @@ def judge(run):
             lost = run.lost_at is not None and run.lost_at <= t
             tw = run.written.get(cid)
             t0, q_ahead = start_info.get(cid, (t, 0))
-            slot = timeout + (cfg.get('send_delay', 20.0) if wl.get('pauses') else 0.0)
+            slot = max_timeout(wl) + (cfg.get('send_delay', 20.0) if wl.get('pauses') else 0.0)
+            # the response wait limit of this call: the one in force when its request was written
+            timeout, t_amb = timeout_in_force(wl, tw) if tw is not None else (cfg['timeout'], False)
             if t - t0 > (q_ahead + 2) * slot + 1e-6:
                 fail('c20:wait-not-bounded', f'caller {cid} started at {t0} with {q_ahead} queued ahead, '
                                              f'finished at {t} > (q+2)*(timeout [+ max_send_delay])')
@@ -411,9 +442,11 @@ def judge(run):
                                           for t1, t2 in wl.get('pauses', [])) and not lost:
                     fail('c20:timeout-without-write', f'caller {cid} got TaskTimeout at {t} although its '
                                                       f'request was never written and no write was blocked')
-                if tw is not None and abs(t - (tw + timeout)) > 1e-9 * max(1.0, t):
+                if tw is not None and not t_amb and abs(t - (tw + timeout)) > 1e-9 * max(1.0, t):
                     fail('c20:timeout-at-wrong-time', f'caller {cid}: written at {tw}, TaskTimeout at {t}, '
-                                                      f'expected {tw + timeout}')
+                                                      f'expected {tw + timeout} (sent_request_timeout {timeout} '
+                                                      f'in force when it was written, configured via '
+                                                      f'{wl.get("configure", "subclass")})')
                 ra = run.reply_at.get(cid)
                 if ra is not None and tw is not None and ra[0] < tw + timeout - 1e-9 and not lost \
                         and (run.lost_at is None or ra[0] < run.lost_at):
@@ -474,6 +507,35 @@ def judge(run):
                     break
             else:
                 samples = 0
+    # ... "re-estimated from measured response times after every recalibration interval": every
+    # finished wait - answered OR ended by the response wait limit - is a measured response time
+    # (a batch contributes its per-request share once per member); whenever recalibrate_count of
+    # them have accumulated the interval closes and the limit is re-estimated.  Judged where the
+    # direction is beyond doubt: an interval averaging at least twice target_response_time must
+    # lower the limit (unless it is 1), one averaging at most half of it must raise it (unless 250).
+    if run.lost_at is None and not wl.get('pauses') and not wl.get('cancels') \
+            and cfg['trt'] > 0 and cfg['recal'] >= 1:
+        recal, trt = cfg['recal'], cfg['trt']
+        samples, prev_lim, closed = [], 50, 0
+        for kind, cid, t, lim_now, extra in run.log:
+            if kind == 'd' and cid in run.written:
+                c = callers[cid]
+                if not (c['kind'] == 'batch' and not any(c['items'])):
+                    n = count_of(c)
+                    samples += [max(0.0, t - run.written[cid]) / n] * n
+                    if len(samples) >= recal:
+                        avg = sum(samples) / len(samples)
+                        closed += 1
+                        what = (f'recalibration interval {closed} closed at t={t} with {len(samples)} finished waits '
+                                f'(answered or timed out) averaging {avg:.6g}s against target_response_time {trt}: '
+                                f'the limit went {prev_lim} -> {lim_now}')
+                        if avg >= 2 * trt and prev_lim > 1 and lim_now >= prev_lim:
+                            fail('c20:limit-not-re-estimated-after-interval', what + ', it had to go down')
+                        if avg <= trt / 2 and prev_lim < 250 and lim_now <= prev_lim:
+                            fail('c20:limit-not-re-estimated-after-interval', what + ', it had to go up')
+                        samples = []
+            prev_lim = lim_now
+        stats['intervals_judged'] = closed
     # connection loss cancels every outstanding request at once
     if run.lost_at is not None:
         for cid, tw in run.written.items():
@@ -483,7 +545,8 @@ def judge(run):
             if t < run.lost_at - 1e-12:
                 continue            # finished before the loss
             ra = run.reply_at.get(cid)
-            tie = abs(tw + timeout - run.lost_at) < 1e-9 or (ra is not None and abs(ra[0] - run.lost_at) < 1e-9)
+            tie = abs(tw + timeout_in_force(wl, tw)[0] - run.lost_at) < 1e-9 \
+                or (ra is not None and abs(ra[0] - run.lost_at) < 1e-9)
             if tie or cid in run.cancelled_by_harness:
                 continue
             if out[0] != 'cancelled' or abs(t - run.lost_at) > 1e-9:
@@ -573,7 +636,7 @@ def timed_ops(run):
     workload contains what the timed model does not cover (blocked writes, callers cancelled by
     their owner)"""
     wl = run.wl
-    if wl.get('pauses') or wl.get('cancels'):
+    if wl.get('pauses') or wl.get('cancels') or wl.get('changes'):
         return None
     callers = {c['id']: c for c in wl['callers']}
     ops, now = [], 0.0
@@ -636,8 +699,7 @@ def timed_info(run):
     for kind, cid, t, _lim, extra in run.log:
         if kind == 'd':
             done[cid] = (t, extra)
-    timeout = run.wl['cfg']['timeout']
-    deadlines = {round(tw + timeout, 9) for tw in run.written.values()}
+    deadlines = {round(tw + timeout_in_force(run.wl, tw)[0], 9) for tw in run.written.values()}
     answers = {round(ra[0], 9) for ra in run.reply_at.values()}
     starts = {round(c['start'], 9) for c in run.wl['callers']}
     lost = {round(run.lost_at, 9)} if run.lost_at is not None else set()
@@ -738,6 +800,12 @@ def random_workload(rng, big=False):
     else:
         spec = dict(kind=pk, names=[pk], table=[beh[pk]])
     wl = dict(cfg=cfg, callers=callers, peer_spec=spec)
+    how = rng.random()
+    if how < 0.3:
+        wl['configure'] = 'instance'
+    elif how < 0.4:
+        wl['configure'] = 'instance'
+        wl['changes'] = [(dy(rng, 0, cfg['timeout'] * 2), rng.choice([30.0, 2.0, 0.5, 8.0]))]
     if rng.random() < 0.15 and n > 1:
         wl['drop_at'] = dy(rng, 0, t * 2)
     if rng.random() < 0.2:
@@ -821,6 +889,44 @@ def blocked_partial_cancel_workload(rng):
     gone = rng.sample(range(n1), rng.randint(1, max(1, n1 // 2)))
     return dict(cfg=cfg, callers=callers, pauses=[(0.0, 4.0)], cancels=[(i, 1.0) for i in gone],
                 peer_spec=dict(kind='prompt', names=['prompt'], table=[('reply', 0.0)]))
+
+
+def partial_timeout_workload(rng):
+    """a peer that answers only every k-th request (at once) and never the others: most waits end
+    by the response wait limit; with a small recalibrate_count the limit has to be re-estimated
+    from those waits too"""
+    recal = rng.choice([2, 3, 4, 5])
+    trt = rng.choice([0.0625, 0.03125])
+    cfg = dict(timeout=rng.choice([1.0, 2.0]), trt=trt, recal=recal)
+    every = rng.choice([2, 3, 4])
+    rounds = rng.randint(4, 7)
+    per = rng.choice([recal, 4, recal + 1])
+    callers, table = [], []
+    for r in range(rounds):
+        for j in range(per):
+            cid = len(callers)
+            callers.append(dict(id=cid, start=r * (cfg['timeout'] + 0.5) + j * 0.015625, kind='single'))
+            table.append(('reply', 0.0) if cid % every == 0 else ('silent', 0.0))
+    return dict(cfg=cfg, callers=callers, configure=rng.choice(['subclass', 'instance']),
+                peer_spec=dict(kind='mixed', names=['answers-some'], table=table))
+
+
+def reconfigured_workload(rng):
+    """the response wait limit given on the INSTANCE (as for a session obtained from connect_rs)
+    and re-assigned while the session is in use; a peer that never answers: every call has to end
+    with TaskTimeout after the limit that was in force when its request was written"""
+    first = rng.choice([0.5, 2.0, 4.0])
+    cfg = dict(timeout=first, trt=3.0, recal=30)
+    n1, n2 = rng.randint(1, 4), rng.randint(1, 4)
+    tc = first * 2 + 1.0
+    second = rng.choice([0.25, 1.0, 8.0])
+    callers = [dict(id=i, start=i * 0.0625, kind='single' if i % 3 else 'batch', items=[True, True]) for i in range(n1)]
+    callers += [dict(id=n1 + j, start=tc + 0.25 + j * 0.0625, kind='single') for j in range(n2)]
+    for c in callers:
+        if c['kind'] == 'single':
+            c.pop('items', None)
+    return dict(cfg=cfg, callers=callers, configure='instance', changes=[(tc, second)],
+                peer_spec=dict(kind='silent', names=['silent'], table=[('silent', 0.0)]))
 
 
 def loss_while_queued_workload(rng):
@@ -911,6 +1017,9 @@ def evaluate_workloads(ctx, res, wls, scope):
         res.count('monitor_ops', len(ops))
         res.count('workloads_with_connection_loss', wl.get('drop_at') is not None)
         res.count('workloads_with_blocked_writes', bool(wl.get('pauses')))
+        res.count('workloads_configured_on_the_instance', wl.get('configure') == 'instance')
+        res.count('workloads_with_timeout_reassigned', bool(wl.get('changes')))
+        res.count('recalibration_intervals_judged', stats.get('intervals_judged', 0))
         res.count('workloads_hitting_the_cap', stats['max_inflight'] >= 50)
         if stats['limit_changes'] or stats['queued']:
             res.nontrivial(json.dumps(wl, sort_keys=True))
@@ -968,10 +1077,12 @@ def run(ctx):
     ntg = 4
     for gen, name in ((lower_then_raise_workload, 'lower_then_raise'), (blocked_cancel_workload, 'blocked_cancel'),
                       (blocked_partial_cancel_workload, 'blocked_partial_cancel'),
-                      (loss_while_queued_workload, 'loss_while_queued')):
+                      (loss_while_queued_workload, 'loss_while_queued'),
+                      (partial_timeout_workload, 'partial_timeout'), (reconfigured_workload, 'reconfigured')):
         evaluate_workloads(ctx, res, [gen(rng) for _ in range(ntg)], name)
     res['scopes']['targeted_workloads'] = {'lower_then_raise': ntg, 'blocked_cancel': ntg,
-                                           'blocked_partial_cancel': ntg, 'loss_while_queued': ntg}
+                                           'blocked_partial_cancel': ntg, 'loss_while_queued': ntg,
+                                           'partial_timeout': ntg, 'reconfigured': ntg}
     # (c) exhaustive recalibration grid
     full = ctx.tier == 'thorough'
     cases = list(recalc_cases(full and not _failed(res, known)))
